@@ -159,6 +159,7 @@ type State struct {
 	trace   []string
 	aborted string
 	exited  bool // os.Exit was called: the path ends here
+	defers  []*ssa.Defer
 }
 
 type havocMark struct {
@@ -271,6 +272,7 @@ func (s *State) clone() *State {
 	n.trace = append([]string(nil), s.trace...)
 	n.havocPref = append([]havocMark(nil), s.havocPref...)
 	n.impure = append([]string(nil), s.impure...)
+	n.defers = append([]*ssa.Defer(nil), s.defers...)
 	n.locals = map[*ssa.Alloc][]Term{}
 	for k, v := range s.locals {
 		n.locals[k] = v
